@@ -1,38 +1,97 @@
 """C04 — assertions are honoured only inside their validity windows.
 
-Clock grid through the real SP (controlled clock) vs Model.Response, plus the
-property as an oracle.  Cells where `now` equals a bound (+- allowance) exactly
-are executed but not compared (the property leaves them unspecified)."""
+Clock grid through the real SP (controlled clock) vs Model.Response / Model.C04Kinds,
+plus the property as an oracle, over
+  * every binding of parse_authn_request_response (POST, Redirect, SOAP, PAOS via
+    parse_ecp_authn_response),
+  * subject-confirmation shapes (2-3 confirmations, bearer / sender-vouches /
+    holder-of-key, exactly one bearer confirmation out of its window, every position),
+  * the other response kinds sharing StatusResponse._verify (attribute query, authn
+    query, logout, name-id mapping, manage-name-id) for the IssueInstant window (and
+    the bearer / Conditions bounds the query kinds check),
+all cells run in a seed-shuffled order on long-lived Saml2Client objects, plus explicit
+call histories on a fresh client compared with Model.C04Kinds.run_history.
+Cells where `now` equals a bound (+- allowance) exactly are executed but not compared
+(the property leaves them unspecified)."""
+import base64
+import copy
 import itertools
+import random
 
 import env
 import pipeline
 from pipeline import A, R, SPCase
-from core import Exn
-from env import NOW, SP_ACS_POST
-from saml2_tophat.saml import SCM_BEARER
+from core import Exn, cstr, cbool, cz, copt, clist
+from env import NOW, SP_ACS_POST, SP_ACS_REDIRECT
+from saml2_tophat import saml, samlp
+from saml2_tophat import BINDING_HTTP_POST, BINDING_HTTP_REDIRECT, BINDING_SOAP, BINDING_PAOS
+from saml2_tophat.saml import SCM_BEARER, SCM_SENDER_VOUCHES, SCM_HOLDER_OF_KEY
 
 CLAIM = {
-    "text": "Coq theorems (Props/C04.v) over the SP pipeline model, for every integer clock value, every allowance, every subset of present bounds and every content: acceptance implies that no NotOnOrAfter (Conditions, EVERY bearer SubjectConfirmationData whether retained or not, SessionNotOnOrAfter) is more than the allowance in the past, no NotBefore more than the allowance in the future, Conditions NotBefore <= NotOnOrAfter, a bearer confirmation with NotBefore > NotOnOrAfter is never retained, and IssueInstant is strictly within a day plus the allowance; the session expiry returned is SessionNotOnOrAfter when present, else the Conditions NotOnOrAfter, else 0 (lia after case analysis; unbounded Z). The acceptance side (inside all windows with margin => not rejected on time grounds) is covered by the grid correspondence and oracle, not by a theorem. Tie: edge x offset x presence-subset x allowance x spelling grid on implementation (controlled clock) and model.",
-    "note": "Trusted: Coq kernel + vm_compute; pipeline model tied to the code by the grid correspondence; the controlled clock patch (self-checked each run; falls back to nothing — a defeated patch is a broken obligation); timestamps are whole seconds as in the code (fractions truncated, spellings with offsets rejected by schema validation). Equality instants are executed but not compared.",
-    "technique": "machine-checked proof (Coq, linear arithmetic over Z) + clock-grid correspondence + implementation-level oracle",
+    "text": "Coq theorems (Props/C04.v) over the SP pipeline model, for every integer clock value, every allowance, every subset of present bounds and every content: acceptance implies that no NotOnOrAfter (Conditions, EVERY bearer SubjectConfirmationData whether retained or not, SessionNotOnOrAfter) is more than the allowance in the past, no NotBefore more than the allowance in the future, Conditions NotBefore <= NotOnOrAfter, a bearer confirmation with NotBefore > NotOnOrAfter is never retained, and IssueInstant is strictly within a day plus the allowance; the session expiry returned is SessionNotOnOrAfter when present, else the Conditions NotOnOrAfter, else 0 (lia after case analysis; unbounded Z). The same statement is proved for every binding value of parse_authn_request_response (POST/Redirect asynchop, SOAP/PAOS asynchop=False; PAOS is never accepted at all: unravel raises) and either value of the asynchop switch; one bearer confirmation out of its window at any position among any other confirmations rejects; the IssueInstant window is proved for every response kind sharing StatusResponse._verify (authn, attribute query, authn query, logout, name-id mapping, manage-name-id) over every binding, with the bearer (and, attribute query, Conditions) bounds for the query kinds; and by induction over call sequences on one long-lived SP: the configuration is unchanged, every accepted call met the windows at its own clock value, and a verdict does not depend on earlier calls. The acceptance side (inside all windows with margin => not rejected on time grounds) is covered by the grid correspondence and oracle, not by a theorem. Tie: edge x offset x presence-subset x allowance x spelling x binding x confirmation-shape x response-kind grid (assertion plain / signed / in a signed response / encrypted; logout and manage-name-id also at an IdP) on implementation (controlled clock, seed-shuffled order on long-lived clients, explicit histories) and model.",
+    "note": "Trusted: Coq kernel + vm_compute; pipeline / kinds models tied to the code by the grid correspondence; the controlled clock patch (self-checked each run; falls back to nothing — a defeated patch is a broken obligation); timestamps are whole seconds as in the code (fractions truncated, spellings with offsets rejected by schema validation). Equality instants are executed but not compared; bounds on non-bearer confirmations are not compared (unspecified). Outside: AuthnQuery responses ignore Conditions by design of the library (condition_ok returns True) and query kinds ignore SessionNotOnOrAfter; authz-decision responses cannot be delivered at all (no SOAP parser for them).",
+    "technique": "machine-checked proof (Coq, linear arithmetic over Z, induction over call sequences) + clock-grid correspondence over bindings/kinds/histories + implementation-level oracle",
 }
-TRUSTED = ["modelled: validate_on_or_after / validate_before / later_than / issue_instant_ok / condition_ok / _bearer_confirmed / authn_statement_ok / session_info as part of Model/Response.v",
+TRUSTED = ["modelled: validate_on_or_after / validate_before / later_than / issue_instant_ok / condition_ok / _bearer_confirmed / authn_statement_ok / session_info as part of Model/Response.v; the binding->asynchop switch and unravel of Entity._parse_response, AttributeResponse / AuthnQueryResponse / LogoutResponse / NameIDMappingResponse / ManageNameIDResponse and call histories in Model/C04Kinds.v",
            "controlled clock: time_util.time and time_util.datetime replaced from the harness (env.Clock, self-check on entry)"]
-ASSUMPTIONS = ["whole-second resolution (as the code)", "acceptance-side statement is tested, not proved"]
-RULE = ("focus bound in {Conditions NotOnOrAfter/NotBefore, bearer SCD NotOnOrAfter/NotBefore, SessionNotOnOrAfter, IssueInstant low/high, Conditions NotBefore>NotOnOrAfter, "
+ASSUMPTIONS = ["whole-second resolution (as the code)", "acceptance-side statement is tested, not proved",
+               "query kinds: SessionNotOnOrAfter (both) and Conditions (authn query) are not consulted by the library and not part of the tested statement"]
+RULE = ("authn: focus bound in {Conditions NotOnOrAfter/NotBefore, bearer SCD NotOnOrAfter/NotBefore, SessionNotOnOrAfter, IssueInstant low/high, Conditions NotBefore>NotOnOrAfter, "
         "SCD NotBefore>NotOnOrAfter} x offset of now from the edge {-2,-1,0,+1,+2,+-3600,+-2d} x allowance {0,1,60,3600,10^6} x presence subsets of the other bounds "
-        "x spelling {Z,noZ,frac,fracNoZ,offset,garbage} x confirmation layout {single, [focus,valid], [valid,focus]}; non-trivial = offset within +-2 s of the edge; "
-        "cells at offset 0 are 'unspecified' (run, not compared)")
+        "x spelling {Z,noZ,frac,fracNoZ,offset,garbage} x binding {post,soap full; redirect,paos thinned} x confirmation layout {F, F+g, g+F, and 2-3 confirmation shapes with "
+        "bearer(g,gn,g0)/sender-vouches/holder-of-key companions and focus variants, every position}; kinds {attrq,authnq,logout,nim,mni} x IssueInstant low/high (+ SCD/Conditions "
+        "bounds for the query kinds) x offsets x allowances x bindings, logout/mni also received by an IdP; authn also with the assertion signed / in a signed response / encrypted / encrypted+signed; non-trivial = offset within +-2 s of the edge; cells at offset 0 are 'unspecified' (run, not compared); "
+        "run order shuffled by the seed on long-lived clients; explicit histories of 40 calls on fresh clients")
 
 OFFSETS = [-2, -1, 0, 1, 2, -3600, 3600, -172800, 172800]
+NEAR = [-2, -1, 0, 1, 2]
 SLACKS = [0, 1, 60, 3600, 10 ** 6]
 FOCI = ["k_nooa", "k_nb", "d_nooa", "d_nb", "sess", "ii_low", "ii_high", "k_inconsistent", "d_inconsistent"]
 FAR = 10 ** 7
+ALL_PRESENT = ("k_nb", "k_nooa", "d_nooa", "d_nb", "sess")
+SUBSETS = [(), ("k_nooa",), ("k_nb", "k_nooa"), ("d_nooa",), ("d_nooa", "sess"), ALL_PRESENT, ("sess",), ("d_nb",)]
+OTHER_RECIPIENT = "https://other.example.org/acs"
+
+BIND = {"post": BINDING_HTTP_POST, "redirect": BINDING_HTTP_REDIRECT, "soap": BINDING_SOAP, "paos": BINDING_PAOS}
+BCOQ = {"post": "BPost", "redirect": "BRedirect", "soap": "BSoap", "paos": "BPaos"}
+KCOQ = {"authn": "KAuthn", "attrq": "(KQuery QAttr)", "authnq": "(KQuery QAuthnQuery)", "logout": "(KStatus SLogout)",
+        "nim": "(KStatus SNameIdMapping)", "mni": "(KStatus SManageNameId)"}
+QUERY = ("attrq", "authnq")
+STATUS = ("logout", "nim", "mni")
+# legacy layout names
+LAYOUT_ALIAS = {"single": "F", "focus-first": "F+g", "focus-last": "g+F"}
+WRAPS = ["sigA", "sigR", "enc", "enc+sigA"]
+SHAPES = ["F+gn", "gn+F", "F+g0", "g0+F", "F+sv", "sv+F", "F+hk", "hk+F", "g+g+F", "g+F+g", "F+g+g", "sv+F+g", "g+sv+F", "hk+g+F",
+          "Fr+g", "g+Fr", "Fr+sv", "sv+Fr"]
 
 
-def build(focus, off, slack, present, spelling, layout):
+def _companion(tok, now):
+    base = {"irt": "req-1", "recipient": SP_ACS_POST, "address": None, "data": True, "nb": None}
+    if tok == "g":      # profile bearer confirmation, generous
+        return dict(base, method=SCM_BEARER, nooa=now + FAR)
+    if tok == "gn":     # bearer with both bounds, both generous
+        return dict(base, method=SCM_BEARER, nooa=now + FAR, nb=now - FAR)
+    if tok == "g0":     # bearer without any bound
+        return dict(base, method=SCM_BEARER, nooa=None)
+    if tok == "sv":
+        return dict(base, method=SCM_SENDER_VOUCHES, nooa=now + FAR)
+    if tok == "hk":     # holder-of-key without data: never retained (one WITH data makes the library raise TypeError
+        return dict(base, method=SCM_HOLDER_OF_KEY, nooa=None, data=False)      # in _holder_of_key_confirmed, whatever the time)
+    raise ValueError(tok)
+
+
+def build_cell(c):
+    return build(c["focus"], c["off"], c["slack"], tuple(c["present"]), c["spelling"], c["layout"], c.get("binding", "post"),
+                 c.get("kind", "authn"), c.get("wrap", "plain"))
+
+
+def all_assertions(spec):
+    return list(spec.get("encrypted", [])) + list(spec["assertions"])
+
+
+def build(focus, off, slack, present, spelling, layout, binding="post", kind="authn", wrap="plain"):
     """returns (now, spec).  All bounds except the focus one are comfortably valid relative to `now`."""
+    layout = LAYOUT_ALIAS.get(layout, layout)
     now = NOW
     B = NOW  # the focus bound's value; now is placed relative to its edge
     k = {"nb": None, "nooa": None, "audiences": [[env.SP_ID]]}
@@ -70,31 +129,50 @@ def build(focus, off, slack, present, spelling, layout):
         sess = now + FAR
     if ii is None:
         ii = now
-    good = {"method": SCM_BEARER, "irt": "req-1", "recipient": SP_ACS_POST, "nooa": now + FAR, "nb": None, "address": None, "data": True}
-    confs = {"single": [d], "focus-first": [d, good], "focus-last": [good, d]}[layout]
+    confs = []
+    for tok in layout.split("+"):
+        if tok == "F":
+            confs.append(d)
+        elif tok == "Fr":
+            confs.append(dict(d, recipient=OTHER_RECIPIENT))
+        else:
+            confs.append(_companion(tok, now))
     a = A(confirmations=confs, conditions=k, authn=[{"session_nooa": sess}], issue_instant=now)
-    return now, R(issue_instant=ii, assertions=[a], spelling=spelling)
+    dest = {"post": SP_ACS_POST, "redirect": SP_ACS_REDIRECT}.get(binding, SP_ACS_POST)
+    if kind in STATUS:
+        return now, R(issue_instant=ii, assertions=[], destination=None, spelling=spelling)
+    # how the assertion travels: plain / signed / inside a signed response / encrypted (checked after decryption)
+    if "sigA" in wrap:
+        a["sig"] = "valid"
+    if wrap.startswith("enc"):
+        return now, R(issue_instant=ii, assertions=[], encrypted=[a], spelling=spelling, destination=dest)
+    return now, R(issue_instant=ii, assertions=[a], spelling=spelling, destination=dest, sig="valid" if wrap == "sigR" else None)
 
 
-def violated(now, slack, spec):
+def _bearers(a):
+    return [c for c in a["confirmations"] if c["method"] == SCM_BEARER]
+
+
+def violated(now, slack, spec, kind="authn"):
     """the property's rejection clause, independent of model and code: some present bound is strictly violated"""
-    a = spec["assertions"][0]
-    k = a["conditions"]
     out = []
-    if k["nooa"] is not None and now > k["nooa"] + slack:
-        out.append("Conditions NotOnOrAfter")
-    if k["nb"] is not None and now + slack < k["nb"]:
-        out.append("Conditions NotBefore")
-    if k["nb"] is not None and k["nooa"] is not None and k["nb"] > k["nooa"]:
-        out.append("Conditions NotBefore>NotOnOrAfter")
-    for c in a["confirmations"]:
-        if c["nooa"] is not None and now > c["nooa"] + slack:
-            out.append("SCD NotOnOrAfter")
-        if c["nb"] is not None and now + slack < c["nb"]:
-            out.append("SCD NotBefore")
-    s = a["authn"][0]["session_nooa"]
-    if s is not None and now > s + slack:
-        out.append("SessionNotOnOrAfter")
+    for a in all_assertions(spec):
+        k = a["conditions"]
+        if kind != "authnq":
+            if k["nooa"] is not None and now > k["nooa"] + slack:
+                out.append("Conditions NotOnOrAfter")
+            if k["nb"] is not None and now + slack < k["nb"]:
+                out.append("Conditions NotBefore")
+            if k["nb"] is not None and k["nooa"] is not None and k["nb"] > k["nooa"]:
+                out.append("Conditions NotBefore>NotOnOrAfter")
+        for c in _bearers(a):
+            if c["nooa"] is not None and now > c["nooa"] + slack:
+                out.append("SCD NotOnOrAfter")
+            if c["nb"] is not None and now + slack < c["nb"]:
+                out.append("SCD NotBefore")
+        s = a["authn"][0]["session_nooa"]
+        if kind == "authn" and s is not None and now > s + slack:
+            out.append("SessionNotOnOrAfter")
     if abs(now - spec["issue_instant"]) > 86400 + slack:
         out.append("IssueInstant")
     return out
@@ -102,127 +180,366 @@ def violated(now, slack, spec):
 
 def on_edge(now, slack, spec):
     """now equals some present bound (+- allowance) exactly: unspecified by the property"""
-    a = spec["assertions"][0]
-    k = a["conditions"]
-    for v in [k["nooa"], a["authn"][0]["session_nooa"]] + [c["nooa"] for c in a["confirmations"]]:
-        if v is not None and now == v + slack:
-            return True
-    for v in [k["nb"]] + [c["nb"] for c in a["confirmations"]]:
-        if v is not None and now + slack == v:
-            return True
+    for a in all_assertions(spec):
+        k = a["conditions"]
+        for v in [k["nooa"], a["authn"][0]["session_nooa"]] + [c["nooa"] for c in a["confirmations"]]:
+            if v is not None and now == v + slack:
+                return True
+        for v in [k["nb"]] + [c["nb"] for c in a["confirmations"]]:
+            if v is not None and now + slack == v:
+                return True
     return abs(now - spec["issue_instant"]) == 86400 + slack
 
 
 def inside_with_margin(now, slack, spec):
-    a = spec["assertions"][0]
-    k = a["conditions"]
     ok = True
-    for v in [k["nooa"], a["authn"][0]["session_nooa"]] + [c["nooa"] for c in a["confirmations"]]:
-        if v is not None and not (now + slack < v):
-            ok = False
-    for v in [k["nb"]] + [c["nb"] for c in a["confirmations"]]:
-        if v is not None and not (v + slack < now):
-            ok = False
+    profile = True
+    for a in all_assertions(spec):
+        k = a["conditions"]
+        for v in [k["nooa"], a["authn"][0]["session_nooa"]] + [c["nooa"] for c in a["confirmations"]]:
+            if v is not None and not (now + slack < v):
+                ok = False
+        for v in [k["nb"]] + [c["nb"] for c in a["confirmations"]]:
+            if v is not None and not (v + slack < now):
+                ok = False
+        profile = profile and all(c["nooa"] is not None and c["nb"] is None for c in _bearers(a))
     if not abs(now - spec["issue_instant"]) + slack < 86400:
         ok = False
-    profile = all(c["nooa"] is not None and c["nb"] is None for c in a["confirmations"])
     return ok and profile
 
 
-def grid(ctx):
-    subsets = [(), ("k_nooa",), ("k_nb", "k_nooa"), ("d_nooa",), ("d_nooa", "sess"), ("k_nb", "k_nooa", "d_nooa", "d_nb", "sess"), ("sess",), ("d_nb",)]
+# ---------------------------------------------------------------- the plan of cells
+def cell(kind, binding, focus, off, slack, present, spelling, layout, wrap="plain", entity="sp"):
+    return dict(kind=kind, binding=binding, focus=focus, off=off, slack=slack, present=list(present), spelling=spelling, layout=layout,
+                wrap=wrap, entity=entity)
+
+
+def plan(quick, rng):
     out = []
-    for focus, off, slack in itertools.product(FOCI, OFFSETS, SLACKS):
-        for present in subsets:
-            for layout in ("single", "focus-first", "focus-last"):
-                if layout != "single" and not focus.startswith("d_"):
+    # A. the base grid, over POST and SOAP in full, Redirect / PAOS thinned
+    for binding in ("post", "soap"):
+        for focus, off, slack in itertools.product(FOCI, OFFSETS, SLACKS):
+            for present in SUBSETS:
+                for layout in ("F", "F+g", "g+F"):
+                    if layout != "F" and not focus.startswith("d_"):
+                        continue
+                    if quick:
+                        # thin: all subsets only near the edge; far offsets with two subsets
+                        if abs(off) > 2 and present not in ((), ALL_PRESENT):
+                            continue
+                        if slack in (1, 3600) and present not in ((), ("d_nooa",)):
+                            continue
+                    out.append(cell("authn", binding, focus, off, slack, present, "Z", layout))
+        for focus, off, sp in itertools.product(FOCI[:7], [-1, 1], ["noZ", "frac", "fracNoZ", "offset", "garbage"]):
+            out.append(cell("authn", binding, focus, off, 0, ("k_nooa", "d_nooa"), sp, "F"))
+    for binding in ("redirect", "paos"):
+        for focus, off, slack, present in itertools.product(FOCI, NEAR + [-172800, 172800], [0, 60], [(), ALL_PRESENT]):
+            out.append(cell("authn", binding, focus, off, slack, present, "Z", "F"))
+        for focus, off in itertools.product(("d_nooa", "d_nb"), [-1, 1]):
+            for layout in ("F+g", "g+F", "sv+F", "g+F+g"):
+                out.append(cell("authn", binding, focus, off, 0, (), "Z", layout))
+    # B. confirmation shapes: exactly one bearer confirmation out of window, every position, bearer and non-bearer companions
+    slacks_b = [0, 60] if quick else SLACKS
+    for binding in ("post", "soap"):
+        for focus, off, slack, layout in itertools.product(("d_nooa", "d_nb", "d_inconsistent"), NEAR + [-3600, 3600], slacks_b, SHAPES):
+            for present in ((), ("k_nb", "k_nooa", "sess")):
+                out.append(cell("authn", binding, focus, off, slack, present, "Z", layout))
+    # C. the other response kinds (IssueInstant window; the query kinds also their bearer / Conditions bounds)
+    for kind in QUERY + STATUS:
+        binds = ("soap", "post", "paos") if kind in QUERY else ("soap", "post", "redirect", "paos")
+        for binding in binds:
+            thin = binding == "paos" or (kind in QUERY and binding == "post")
+            for focus, off, slack in itertools.product(("ii_low", "ii_high"), OFFSETS, SLACKS):
+                if thin and (slack not in (0, 60) or abs(off) > 2):
                     continue
-                if ctx.quick:
-                    # thin: all subsets only near the edge; far offsets with two subsets
-                    if abs(off) > 2 and present not in ((), ("k_nb", "k_nooa", "d_nooa", "d_nb", "sess")):
-                        continue
-                    if slack in (1, 3600) and present not in ((), ("d_nooa",)):
-                        continue
-                out.append((focus, off, slack, present, "Z", layout))
-    for focus, off, sp in itertools.product(FOCI[:7], [-1, 1], ["noZ", "frac", "fracNoZ", "offset", "garbage"]):
-        out.append((focus, off, 0, ("k_nooa", "d_nooa"), sp, "single"))
+                out.append(cell(kind, binding, focus, off, slack, (), "Z", "F"))
+            if binding == "soap":
+                for focus, off, sp in itertools.product(("ii_low", "ii_high"), [-1, 1], ["noZ", "frac", "fracNoZ", "offset", "garbage"]):
+                    out.append(cell(kind, binding, focus, off, 0, (), sp, "F"))
+        if kind in QUERY:
+            foci = ("d_nooa", "d_nb") + (("k_nooa", "k_nb", "k_inconsistent") if kind == "attrq" else ())
+            for focus, off, slack, layout in itertools.product(foci, NEAR + [-3600, 3600], [0, 60], ("F", "F+g", "g+F", "sv+F")):
+                if layout != "F" and not focus.startswith("d_"):
+                    continue
+                out.append(cell(kind, "soap", focus, off, slack, ("k_nooa", "d_nooa") if focus.startswith("k_") else (), "Z", layout))
+    # D. the assertion signed / inside a signed response / encrypted (time checks run after signature checking and decryption)
+    for binding, wrap in itertools.product(("post", "soap"), WRAPS):
+        for focus, off, slack in itertools.product(FOCI[:7], NEAR + [3600, -3600], [0, 60]):
+            if quick and abs(off) > 2 and slack:
+                continue
+            out.append(cell("authn", binding, focus, off, slack, ("k_nooa", "d_nooa"), "Z", "F", wrap=wrap))
+        for focus, off, layout in itertools.product(("d_nooa", "d_nb"), [-1, 1], ("F+g", "g+F", "sv+F")):
+            out.append(cell("authn", binding, focus, off, 0, (), "Z", layout, wrap=wrap))
+    # E. logout / manage-name-id responses arriving at an IdP (Server): the same Entity._parse_response, the IdP's allowance
+    for kind, binding in itertools.product(("logout", "mni"), ("soap", "post")):
+        for focus, off, slack in itertools.product(("ii_low", "ii_high"), OFFSETS, SLACKS):
+            if quick and slack in (1, 3600) and abs(off) > 2:
+                continue
+            out.append(cell(kind, binding, focus, off, slack, (), "Z", "F", entity="idp"))
+    rng.shuffle(out)
     return out
+
+
+# ---------------------------------------------------------------- running the real code
+def _strip(xml):
+    return xml[xml.index("?>") + 2:] if xml.startswith("<?xml") else xml
+
+
+def wire(xml, binding):
+    if binding == "post":
+        return base64.b64encode(xml.encode("utf-8")).decode("ascii")
+    if binding == "redirect":
+        from saml2_tophat.s_utils import deflate_and_base64_encode
+        return deflate_and_base64_encode(xml)
+    return pipeline.SOAP_ENV % _strip(xml)     # soap, and paos (parse_ecp_authn_response takes the envelope)
+
+
+def _observe_authn(r, ids):
+    if r is None:
+        return None
+    if r.session_not_on_or_after > 0:
+        nooa = r.session_not_on_or_after
+    else:
+        nooa = r.not_on_or_after
+    if r.assertion is not None:
+        nooa = r.session_info()["not_on_or_after"]      # the API the property names
+    return [[ids.get(a.id, 0) for a in r.assertions], r.name_id.text if r.name_id is not None else None, r.came_from,
+            int(nooa), r.in_response_to]
+
+
+def status_xml(kind, spec):
+    cls = {"logout": samlp.LogoutResponse, "nim": samlp.NameIDMappingResponse, "mni": samlp.ManageNameIDResponse}[kind]
+    kw = {"name_id": saml.NameID(text="mapped")} if kind == "nim" else {}
+    import resp
+    return str(cls(id="sr-1", in_response_to="req-1", version=spec["version"],
+                   issue_instant=pipeline.spell(spec["issue_instant"], spec.get("spelling", "Z")),
+                   destination=spec.get("destination"), issuer=saml.Issuer(text=env.IDP_ID),
+                   status=resp._status(spec.get("status")), **kw))
+
+
+_idps = {}
+
+
+def idp_for(slack):
+    """long-lived IdP (Server) per allowance"""
+    if slack not in _idps:
+        _idps[slack] = env.make_idp(**({"accepted_time_diff": slack} if slack else {}))
+    return _idps[slack]
+
+
+def run_cell(sp, c, spec, ids):
+    """the real entry point for this kind / binding; Exn | None | observable"""
+    kind, binding = c["kind"], c["binding"]
+    if c.get("entity") == "idp":
+        sp = idp_for(c["slack"])
+    outstanding = {"req-1": "/came-from-1"}
+    try:
+        if kind == "authn":
+            w = wire(pipeline.build_xml(spec), binding)
+            if binding == "paos":
+                r, _relay = sp.parse_ecp_authn_response(w, copy.copy(outstanding))
+            else:
+                r = sp.parse_authn_request_response(w, BIND[binding], copy.copy(outstanding))
+            return _observe_authn(r, ids)
+        if kind in QUERY:
+            w = wire(pipeline.build_xml(spec), binding)
+            fn = sp.parse_attribute_query_response if kind == "attrq" else sp.parse_authn_query_response
+        else:
+            w = wire(status_xml(kind, spec), binding)
+            fn = getattr(sp, {"logout": "parse_logout_request_response", "nim": "parse_name_id_mapping_request_response",
+                              "mni": "parse_manage_name_id_request_response"}[kind])
+        r = fn(w, BIND[binding])
+        return None if r is None else True
+    except BaseException as e:  # noqa
+        if isinstance(e, (KeyboardInterrupt, SystemExit)):
+            raise
+        return Exn(type(e).__name__)
+
+
+def accepted(got):
+    return isinstance(got, list) or got is True
+
+
+def case_for(c):
+    """SP configuration (long-lived client per allowance) and Coq cfg printer for this cell"""
+    return SPCase(slack=c["slack"], binding={"paos": "soap"}.get(c["binding"], c["binding"]))
+
+
+def call_coq(c, case, spec, now):
+    """Model.C04Kinds.call record for this cell"""
+    rc, _ = pipeline.response_coq(spec, case.enc_keys)
+    return ("{| k_kind := %s; k_binding := %s; k_now := %s; k_return_addrs := %s; k_dest_regex_match := false; "
+            "k_outstanding := [(%s, %s)]; k_conv_info := None; k_msg := %s |}"
+            % (KCOQ[c["kind"]], BCOQ[c["binding"]], cz(now), copt(case.return_addrs(), lambda l: clist(l, cstr)),
+               cstr("req-1"), cstr("/came-from-1"), rc))
+
+
+def execute(ctx, cells, clock, record=True):
+    """run the cells in order on the long-lived clients; returns per-cell results"""
+    results = []
+    for n, c in enumerate(cells):
+        now, spec = build_cell(c)
+        clock.now = now
+        case = case_for(c)
+        rc, ids = pipeline.response_coq(spec, case.enc_keys)
+        got = run_cell(case.sp(), c, spec, ids)
+        results.append((c, now, spec, case, rc, got))
+    return results
+
+
+def judge(ctx, c, now, spec, got, seq=None):
+    """the property as an implementation-level oracle on one run"""
+    kind, binding, slack = c["kind"], c["binding"], c["slack"]
+    rep = dict(c, seq=seq)
+    # labels of the oracle keys: call site (kind, receiving entity) and transport (binding, how the assertion is wrapped)
+    klabel = kind if c.get("entity", "sp") == "sp" else "%s@%s" % (kind, c["entity"])
+    blabel = binding if c.get("wrap", "plain") == "plain" else "%s/%s" % (binding, c["wrap"])
+    if c["spelling"] in pipeline.SPELLINGS:
+        if on_edge(now, slack, spec):
+            return
+        bad = violated(now, slack, spec, kind)
+        if accepted(got) and bad:
+            ctx.oracle_fail("accepted-outside-window:%s:%s:%s:%s" % (klabel, blabel, bad[0], c["layout"]),
+                            "%s response over %s accepted although %s is violated (now=%d, allowance=%d)" % (klabel, blabel, ", ".join(bad), now, slack), rep)
+        reachable = binding != "paos" and not (kind in QUERY and binding != "soap")
+        if reachable and not accepted(got) and inside_with_margin(now, slack, spec):
+            ctx.oracle_fail("rejected-inside-window:%s:%s:%s" % (klabel, blabel, c["focus"]),
+                            "profile-conformant %s response over %s inside every window (margin > allowance) rejected: %s" % (klabel, blabel, got), rep)
+        if kind == "authn" and isinstance(got, list) and len(spec["assertions"]) == 1 and not spec.get("encrypted"):
+            a = spec["assertions"][0]
+            want = a["authn"][0]["session_nooa"] or a["conditions"]["nooa"] or 0
+            if got[3] != want:
+                ctx.oracle_fail("session-expiry:%s:%s" % (blabel, "session-present" if a["authn"][0]["session_nooa"] else "conditions-only"),
+                                "session expiry handed over is %r, expected %r" % (got[3], want), rep)
+    elif c["spelling"] in pipeline.BAD_SPELLINGS and accepted(got):
+        ctx.oracle_fail("bad-timestamp-accepted:%s:%s:%s" % (klabel, blabel, c["spelling"]), "timestamp spelling %s accepted" % c["spelling"], rep)
 
 
 def run(ctx):
     env.tool_inprocess(True)
-    cells = grid(ctx)
-    cases = []
+    cells = plan(ctx.quick, ctx.rng)
+    authn_cases, kind_cases = [], []
     unspecified = 0
     with env.Clock(NOW) as clock:
-        for n, (focus, off, slack, present, spelling, layout) in enumerate(cells):
-            now, spec = build(focus, off, slack, present, spelling, layout)
-            clock.now = now
-            case = SPCase(slack=slack)
-            xml = pipeline.build_xml(spec)
-            coq, ids = pipeline.case_coq(case, spec, now)
-            got = pipeline.run_impl(case, xml, ids)
+        results = execute(ctx, cells, clock)
+    for n, (c, now, spec, case, rc, got) in enumerate(results):
+        kind, binding = c["kind"], c["binding"]
+        ctx.count("%s%s/%s%s:%s" % (kind, "@idp" if c.get("entity") == "idp" else "", binding, "" if c.get("wrap", "plain") == "plain" else "/" + c["wrap"],
+                                    "accepted" if accepted(got) else "rejected:" + (got.name if isinstance(got, Exn) else "None")))
+        edge_cell = on_edge(now, c["slack"], spec)
+        # PAOS: the library cannot unravel it (always rejected).  Should a change make it deliverable, an accepted
+        # response is held to what the model says for the other synchronous binding.
+        bcoq = BCOQ["soap" if (binding == "paos" and accepted(got)) else binding]
+        cfgc = case.coq(now, spec.get("destination"))
+        if edge_cell:
+            unspecified += 1
+        elif kind == "authn":
             impl = got if isinstance(got, list) or got is None else Exn("rejected")
-            cell = dict(focus=focus, off=off, slack=slack, present=list(present), spelling=spelling, layout=layout)
-            ctx.count(("accepted" if isinstance(got, list) else "rejected:" + (got.name if isinstance(got, Exn) else "None")))
-            edge_cell = on_edge(now, slack, spec)
-            if edge_cell:
-                unspecified += 1
-            else:
-                cases.append(dict(id=n, coq=coq, impl=impl, show=cell))
-            if abs(off) <= 2:
-                ctx.nontriv((focus, off, slack, present, spelling, layout))
-            if spelling in pipeline.SPELLINGS and not edge_cell:
-                bad = violated(now, slack, spec)
-                if isinstance(got, list) and bad:
-                    ctx.oracle_fail("accepted-outside-window:%s:%s" % (bad[0], layout),
-                                    "accepted although %s is violated (now=%d, allowance=%d)" % (", ".join(bad), now, slack), cell)
-                if not isinstance(got, list) and inside_with_margin(now, slack, spec):
-                    ctx.oracle_fail("rejected-inside-window:%s" % focus,
-                                    "profile-conformant response inside every window (margin > allowance) rejected: %s" % (got,), cell)
-                if isinstance(got, list):
-                    a = spec["assertions"][0]
-                    want = a["authn"][0]["session_nooa"] or a["conditions"]["nooa"] or 0
-                    if got[3] != want:
-                        ctx.oracle_fail("session-expiry:%s" % ("session-present" if a["authn"][0]["session_nooa"] else "conditions-only"),
-                                        "session expiry handed over is %r, expected %r" % (got[3], want), cell)
-            elif spelling in pipeline.BAD_SPELLINGS and isinstance(got, list):
-                ctx.oracle_fail("bad-timestamp-accepted:%s" % spelling, "timestamp spelling %s accepted" % spelling, cell)
-            if n % 500 == 0:
-                ctx.sample(dict(cell=cell, now=now, outcome=got))
+            authn_cases.append(dict(id=n, coq="(%s, %s, %s)" % (bcoq, cfgc, rc), impl=impl, show=dict(c, seq=n)))
+        else:
+            kind_cases.append(dict(id=n, coq="(%s, %s, %s, %s)" % (KCOQ[kind], bcoq, cfgc, rc),
+                                   impl=True if accepted(got) else Exn("rejected"), show=dict(c, seq=n)))
+        if abs(c["off"]) <= 2:
+            ctx.nontriv(tuple(sorted((k, str(v)) for k, v in c.items())))
+        judge(ctx, c, now, spec, got, seq=n)
+        if n % 1500 == 0:
+            ctx.sample(dict(cell=c, now=now, outcome=got))
     ctx.extra["unspecified_cells_not_compared"] = unspecified
     ctx.evaluations += unspecified
-    # session expiry with both bounds present in both orders (the value handed to the application)
+    ctx.correspond("sp_pipeline_time_grid", pipeline.IMPORTS + " Model.C04Kinds", "show_authn_via", "(binding * cfg * response)", authn_cases, shard=250)
+    ctx.correspond("response_kinds_time_grid", pipeline.IMPORTS + " Model.C04Kinds", "show_kind", "(kind * binding * cfg * response)", kind_cases, shard=250)
+    run_expiry(ctx)
+    run_histories(ctx, cells)
+
+
+def run_expiry(ctx):
+    """session expiry with both bounds present in both orders (the value handed to the application), POST and SOAP"""
     extra = []
-    with env.Clock(NOW) as clock:
-        for s_off, k_off in itertools.product([100, 200, 300, None], [100, 200, 300, None]):
+    with env.Clock(NOW):
+        for binding, s_off, k_off in itertools.product(("post", "soap"), [100, 200, 300, None], [100, 200, 300, None]):
             a = A(conditions={"nb": None, "nooa": None if k_off is None else NOW + k_off, "audiences": [[env.SP_ID]]},
                   authn=[{"session_nooa": None if s_off is None else NOW + s_off}])
             spec = R(assertions=[a])
-            case = SPCase()
-            xml = pipeline.build_xml(spec)
-            coq, ids = pipeline.case_coq(case, spec, NOW)
-            got = pipeline.run_impl(case, xml, ids)
+            c = dict(kind="authn", binding=binding, slack=0)
+            case = case_for(c)
+            rc, ids = pipeline.response_coq(spec, case.enc_keys)
+            got = run_cell(case.sp(), c, spec, ids)
             want = (NOW + s_off) if s_off is not None else ((NOW + k_off) if k_off is not None else 0)
             if not isinstance(got, list) or got[3] != want:
-                ctx.oracle_fail("session-expiry:both:%s:%s" % (s_off, k_off), "session expiry handed over %r, expected %r" % (got, want),
-                                dict(focus="expiry", s_off=s_off, k_off=k_off))
-            extra.append(dict(id=len(extra), coq=coq, impl=got if isinstance(got, list) else Exn("rejected"), show=dict(s_off=s_off, k_off=k_off)))
-            ctx.nontriv(("expiry", s_off, k_off))
-    ctx.correspond("sp_pipeline_time_grid", pipeline.IMPORTS, pipeline.MODEL_ACCEPT, pipeline.CTYPE, cases, shard=250)
-    ctx.correspond("session_expiry", pipeline.IMPORTS, pipeline.MODEL_ACCEPT, pipeline.CTYPE, extra)
+                ctx.oracle_fail("session-expiry:both:%s:%s:%s" % (binding, s_off, k_off), "session expiry handed over %r, expected %r" % (got, want),
+                                dict(focus="expiry", binding=binding, s_off=s_off, k_off=k_off))
+            extra.append(dict(id=len(extra), coq="(%s, %s, %s)" % (BCOQ[binding], case.coq(NOW, spec.get("destination")), rc),
+                              impl=got if isinstance(got, list) else Exn("rejected"), show=dict(binding=binding, s_off=s_off, k_off=k_off)))
+            ctx.nontriv(("expiry", binding, s_off, k_off))
+    ctx.correspond("session_expiry", pipeline.IMPORTS + " Model.C04Kinds", "show_authn_via", "(binding * cfg * response)", extra)
+
+
+def history_cells(cells, rng, n_hist, length):
+    """histories: near-edge cells of every kind / binding, drawn with the seed, allowance fixed per history"""
+    near = [c for c in cells if abs(c["off"]) in (1, 2) and c["spelling"] == "Z"]
+    out = []
+    for h in range(n_hist):
+        slack = [0, 60, 1, 3600, 10 ** 6][h % 5]
+        pool = [c for c in near if c["slack"] == slack] or near
+        groups = {}
+        for c in pool:      # every kind / binding gets the same share of a history
+            groups.setdefault((c["kind"], c["binding"]), []).append(c)
+        names = sorted(groups)
+        seq = []
+        for i in range(length):
+            c = dict(rng.choice(groups[rng.choice(names)]), slack=slack)
+            # alternate in-window and out-of-window calls so that a verdict carried over from the previous call shows
+            if seq and i % 2 == 1:
+                c = dict(c, off=-c["off"] if rng.random() < 0.7 else c["off"])
+            seq.append(c)
+        out.append((slack, seq))
+    return out
+
+
+def run_histories(ctx, cells):
+    """explicit call histories on a FRESH client each, compared with Model.C04Kinds.run_history"""
+    hists = history_cells(cells, ctx.rng, 6 if ctx.quick else 40, 40)
+    cases = []
+    for hn, (slack, seq) in enumerate(hists):
+        SPCase._cache.pop(SPCase(slack=slack).key(), None)      # a fresh long-lived client for this history
+        with env.Clock(NOW) as clock:
+            results = execute(ctx, seq, clock)
+        calls, impl = [], []
+        for i, (c, now, spec, case, rc, got) in enumerate(results):
+            judge(ctx, c, now, spec, got, seq="history-%d/%d" % (hn, i))
+            if on_edge(now, slack, spec) or (c["binding"] == "paos" and accepted(got)):
+                continue
+            calls.append(call_coq(c, case, spec, now))
+            impl.append(True if accepted(got) else Exn("rejected"))
+            ctx.count("history-call:%s/%s" % (c["kind"], c["binding"]))
+        sp_cfg = SPCase(slack=slack).coq(0, None)
+        cases.append(dict(id=hn, coq="(%s, %s)" % (sp_cfg, clist(calls, lambda x: x)), impl=impl,
+                          show=dict(history=hn, slack=slack, calls=[dict(c) for c in seq])))
+        ctx.nontriv(("history", hn, slack, len(calls)))
+    ctx.correspond("call_histories", pipeline.IMPORTS + " Model.C04Kinds", "show_history", "(cfg * list call)", cases, shard=2)
 
 
 def replay(ctx, payload):
     env.tool_inprocess(True)
-    cell = payload.get("input")
-    print("replay cell:", cell)
-    if not isinstance(cell, dict) or "focus" not in cell or cell["focus"] == "expiry":
+    c = payload.get("input")
+    print("replay cell:", c)
+    if not isinstance(c, dict) or "focus" not in c or c["focus"] == "expiry":
         return 0
-    now, spec = build(cell["focus"], cell["off"], cell["slack"], tuple(cell["present"]), cell["spelling"], cell["layout"])
-    with env.Clock(now):
-        case = SPCase(slack=cell["slack"])
-        xml = pipeline.build_xml(spec)
-        _, ids = pipeline.case_coq(case, spec, now)
-        print("now =", now, "implementation outcome:", pipeline.run_impl(case, xml, ids))
+    c = dict(dict(kind="authn", binding="post", wrap="plain", entity="sp"), **c)
+    now, spec = build_cell(c)
+    with env.Clock(now) as clock:
+        case = case_for(c)
+        _, ids = pipeline.response_coq(spec, case.enc_keys)
+        got = run_cell(case.sp(), c, spec, ids)
+        print("now =", now, "allowance =", c["slack"], "violated bounds:", violated(now, c["slack"], spec, c["kind"]))
+        print("implementation outcome on a fresh client:", got)
+        seq = c.get("seq")
+        if isinstance(seq, int):
+            # the same call in the position it had in the run (shuffled order of that seed / tier)
+            SPCase._cache.clear()
+            cells = plan(payload.get("tier", "quick") != "thorough", random.Random(payload.get("seed", ctx.seed)))
+            if seq < len(cells) and all(cells[seq].get(k) == c.get(k) for k in ("kind", "binding", "focus", "off", "slack", "layout", "wrap", "entity")):
+                _idps.clear()
+                res = execute(ctx, cells[:seq + 1], clock)
+                print("implementation outcome as call #%d of the run order:" % seq, res[-1][5])
     return 0
